@@ -278,29 +278,38 @@ Init == InitWith([k \in AllKeys |-> Absent])
 
 SetVals == {NoneV} \cup {AtomV(a) : a \in Atoms} \cup {ListV(l) : l \in SetLists}
 On(name) == name \in Ops
+\* one named action per call (TLC reports coverage and counterexample steps under these names)
+N_Set    == On("set")    /\ \E c \in Clients, k \in RawKeys, v \in SetVals :
+                              (k = EvKey => pushed + Len(v.l) <= MaxPush) /\ Set(c, k, v)
+N_Get    == On("get")    /\ \E c \in Clients, k \in RawKeys \cup CacheKeys : Get(c, k)
+N_Append == On("append") /\ \E c \in Clients, k \in RawKeys, a \in Atoms :
+                              /\ (k = EvKey => pushed < MaxPush)
+                              /\ (store[k].t = "list" => Len(store[k].l) < MaxLen)
+                              /\ AppendTx(c, k, a)
+N_Pop    == On("pop")    /\ \E c \in Clients, k \in RawKeys, i \in Indexes : Pop(c, k, i)
+N_Flush  == On("flush")  /\ \E c \in Clients : Flush(c)
+N_Dump   == On("dump")   /\ \E c \in Clients : Dump(c)
+N_XSet   == On("xset")   /\ \E c \in Clients, k \in RawKeys, a \in Atoms : XSet(c, k, AtomV(a))
+N_Init   == On("init")   /\ \E c \in Clients, k \in CacheKeys, clear \in BOOLEAN, m \in CacheSizes : InitCache(c, k, clear, m)
+N_Put    == On("put")    /\ \E c \in Clients, k \in CacheKeys, r \in Records, a \in Atoms : CachePut(c, k, r, a)
+N_Grab   == On("grab")   /\ \E c \in Clients, k \in CacheKeys, r \in Records : CacheGrab(c, k, r)
+N_SetDBPath       == On("setDBPath")       /\ \E c \in Clients, p \in Paths : SetDBPath(c, p)
+N_ClearDBPath     == On("clearDBPath")     /\ \E c \in Clients : ClearDBPath(c)
+N_GetDBConnection == On("getDBConnection") /\ \E c \in Clients : GetDBConnection(c)
+N_PushEvent       == On("pushEvent")       /\ pushed < MaxPush /\ \E c \in Clients, p \in Payloads : PushEvent(c, p)
+N_LogFlushBegin   == On("logAndFlush")     /\ \E c \in Clients : LogFlushBegin(c)
+N_LogFlushStep    == \E c \in Clients : LogFlushStep(c)
+N_RedStart        == On("reduction")       /\ \E c \in Clients, t \in Times : RedStart(c, t.d, t.m)
+N_RedPmInit == \E c \in Clients : RedPmInit(c)
+N_RedPmPut  == \E c \in Clients : RedPmPut(c)
+N_RedPnGrab == \E c \in Clients : RedPnGrab(c)
+N_RedPnInit == \E c \in Clients : RedPnInit(c)
+N_RedPnPut  == \E c \in Clients : RedPnPut(c)
 Next ==
-  \E c \in Clients :
-    \/ On("set")    /\ \E k \in RawKeys, v \in SetVals : (k = EvKey => pushed + Len(v.l) <= MaxPush) /\ Set(c, k, v)
-    \/ On("get")    /\ \E k \in RawKeys \cup CacheKeys : Get(c, k)
-    \/ On("append") /\ \E k \in RawKeys, a \in Atoms :
-                         /\ (k = EvKey => pushed < MaxPush)
-                         /\ (store[k].t = "list" => Len(store[k].l) < MaxLen)
-                         /\ AppendTx(c, k, a)
-    \/ On("pop")    /\ \E k \in RawKeys, i \in Indexes : Pop(c, k, i)
-    \/ On("flush")  /\ Flush(c)
-    \/ On("dump")   /\ Dump(c)
-    \/ On("xset")   /\ \E k \in RawKeys, a \in Atoms : XSet(c, k, AtomV(a))
-    \/ On("init")   /\ \E k \in CacheKeys, clear \in BOOLEAN, m \in CacheSizes : InitCache(c, k, clear, m)
-    \/ On("put")    /\ \E k \in CacheKeys, r \in Records, a \in Atoms : CachePut(c, k, r, a)
-    \/ On("grab")   /\ \E k \in CacheKeys, r \in Records : CacheGrab(c, k, r)
-    \/ On("setDBPath")       /\ \E p \in Paths : SetDBPath(c, p)
-    \/ On("clearDBPath")     /\ ClearDBPath(c)
-    \/ On("getDBConnection") /\ GetDBConnection(c)
-    \/ On("pushEvent")       /\ pushed < MaxPush /\ \E p \in Payloads : PushEvent(c, p)
-    \/ On("logAndFlush")     /\ LogFlushBegin(c)
-    \/ LogFlushStep(c)
-    \/ On("reduction")       /\ \E t \in Times : RedStart(c, t.d, t.m)
-    \/ RedPmInit(c) \/ RedPmPut(c) \/ RedPnGrab(c) \/ RedPnInit(c) \/ RedPnPut(c)
+  \/ N_Set \/ N_Get \/ N_Append \/ N_Pop \/ N_Flush \/ N_Dump \/ N_XSet \/ N_Init \/ N_Put \/ N_Grab
+  \/ N_SetDBPath \/ N_ClearDBPath \/ N_GetDBConnection
+  \/ N_PushEvent \/ N_LogFlushBegin \/ N_LogFlushStep
+  \/ N_RedStart \/ N_RedPmInit \/ N_RedPmPut \/ N_RedPnGrab \/ N_RedPnInit \/ N_RedPnPut
 Spec == Init /\ [][Next]_vars
 
 \* ================================================================ properties
@@ -407,5 +416,5 @@ TypeOK ==
 
 \* ---- spec -> impl: states of `-simulate` behaviours (one line per state of the chosen path)
 SimEmit == PrintT("SIM " \o ToJson([lvl |-> TLCGet("level"), last |-> last, store |-> Compact(store),
-                                     pcs |-> [c \in Clients |-> pc[c]]]))
+                                     pcs |-> [c \in Clients |-> pc[c]], locs |-> [c \in Clients |-> loc[c]]]))
 =============================================================================
